@@ -30,7 +30,6 @@ class Wrap(Contract):
         n = nelem(cfg['shape'])
         if cfg['carrier'] == 'objint':
             xs = [D.int('x%d' % i) for i in range(n)]            # unbounded Python ints
-            assume_no_int64_uint64_mix(D, xs)
             return {'x': xs}
         if cfg['carrier'] == 'i64':
             return {'x': [D.int('x%d' % i, -2**63, 2**63 - 1) for i in range(n)]}
